@@ -137,7 +137,7 @@ func (s *c36Scenario) Validate() error {
 
 func c36GenCfg(r *core.Rand) *c36Cfg {
 	c := &c36Cfg{
-		BlackoutMs: core.Pick(r, int64(0), 0, 100, 300, 500, 1000, 2000),
+		BlackoutMs: core.Pick(r, int64(0), 0, 0, 100, 300, 500, 1000, 2000),
 		ExpireMs:   core.Pick(r, int64(300), 500, 1000, 2000, 3000, 180000),
 		UpdateMs:   core.Pick(r, int64(100), 100, 200, 500, 1000),
 		Penalty:    core.Pick(r, 1.0, 1.0, 0, 0.5, 2, 10),
@@ -208,6 +208,13 @@ func genC36(seed uint64, tier string) *c36Scenario {
 	s.Evs = append(s.Evs, c36Ev{AtMs: 0, Kind: "resolver", Eps: subset(), Cfg: cfg})
 	for i := 0; i < s.NEp; i++ {
 		s.Evs = append(s.Evs, c36Ev{AtMs: 0, Kind: "load", Ep: i, Load: c36GenLoad(r)})
+	}
+	if r.Chance(3, 4) {
+		// every endpoint reports early, so that weights become usable
+		for i := 0; i < s.NEp; i++ {
+			s.Evs = append(s.Evs, c36Ev{AtMs: 0, Kind: "oob", Ep: i})
+		}
+		s.Evs = append(s.Evs, c36Ev{AtMs: 0, Kind: "call", N: 2 * s.NEp})
 	}
 	n := r.Range(8, 30)
 	if tier == "thorough" {
